@@ -162,6 +162,23 @@ def chainIds (p : P) (start : Nat) : Outcome (List Nat) := chainFrom p.fat start
 
 /-! ## regular chains (chain.rs) -/
 
+/-- one more sector at the end of a chain given by its sector list (`extend_chain` on the last
+sector, or `begin_chain` for an empty chain) -/
+def growOne (kind : Init) (p : P) (ids : List Nat) : Outcome (P × List Nat) :=
+  match ids.getLast? with
+  | some last =>
+    match extendChain p last kind with
+    | .ok (p', id) => .ok (p', ids ++ [id])
+    | .err k => .err k
+    | .panic s => .panic s
+    | .hang s => .hang s
+  | none =>
+    match allocateSector p kind with
+    | .ok (p', id) => .ok (p', ids ++ [id])
+    | .err k => .err k
+    | .panic s => .panic s
+    | .hang s => .hang s
+
 /-- `Chain::write` as driven by `write_all`: write `bs` at chain offset `off`, growing the chain
 one sector at a time when the offset reaches its end -/
 def chainWrite (kind : Init) : Nat → P → List Nat → Nat → Bytes → Outcome (P × List Nat)
@@ -169,13 +186,7 @@ def chainWrite (kind : Init) : Nat → P → List Nat → Nat → Bytes → Outc
   | fuel + 1, p, ids, off, bs =>
     if bs.isEmpty then .ok (p, ids) else
     let S := p.S
-    let grow : Outcome (P × List Nat) :=
-      if off = ids.length * S then
-        match ids.getLast? with
-        | some last => (extendChain p last kind).bind (fun (p', id) => .ok (p', ids ++ [id]))
-        | none => (allocateSector p kind).bind (fun (p', id) => .ok (p', ids ++ [id]))
-      else .ok (p, ids)
-    match grow with
+    match (if off = ids.length * S then growOne kind p ids else .ok (p, ids)) with
     | .ok (p1, ids1) =>
       match ids1[off / S]? with
       | none => .panic "chain.rs:178 sector_ids[current_sector_index]"
@@ -211,11 +222,8 @@ def chainGrow (kind : Init) : Nat → P → List Nat → Nat → Outcome (P × L
   | 0, _, _, _ => .hang "chain grow"
   | fuel + 1, p, ids, target =>
     if ids.length ≥ target then .ok (p, ids) else
-    let r := match ids.getLast? with
-      | some last => extendChain p last kind
-      | none => allocateSector p kind
-    match r with
-    | .ok (p', id) => chainGrow kind fuel p' (ids ++ [id]) target
+    match growOne kind p ids with
+    | .ok (p', ids') => chainGrow kind fuel p' ids' target
     | .err k => .err k
     | .panic s => .panic s
     | .hang s => .hang s
@@ -247,20 +255,37 @@ def setMiniFat (p : P) (idx val : Nat) : Outcome P := do
   else if idx < p.miniFat.size then pure { p with miniFat := p.miniFat.setIfInBounds idx val }
   else .panic "minialloc.rs set_minifat: index beyond minifat.len()"
 
+/-- room for one more mini sector in the mini stream's chain (begin it, or extend it when full) -/
+def ensureRootRoom (p : P) : Outcome P :=
+  if p.rootStart = END then
+    match allocateSector p .zero with
+    | .ok (p', id) => .ok { p' with rootStart := id }
+    | .err k => .err k
+    | .panic s => .panic s
+    | .hang s => .hang s
+  else if p.rootLen % p.S = 0 then
+    match chainIds p p.rootStart with
+    | .ok chain =>
+      if p.rootLen ≥ chain.length * p.S then
+        match extendChain p p.rootStart .zero with
+        | .ok (p', _) => .ok p'
+        | .err k => .err k
+        | .panic s => .panic s
+        | .hang s => .hang s
+      else .ok p
+    | .err k => .err k
+    | .panic s => .panic s
+    | .hang s => .hang s
+  else .ok p
+
 /-- `append_mini_sector`: the mini stream grows by one mini sector; its chain only when it has no
 room left -/
-def appendMiniSector (p : P) : Outcome P := do
-  let p ← if p.rootStart = END then do
-      let (p, id) ← allocateSector p .zero
-      pure { p with rootStart := id }
-    else if p.rootLen % p.S = 0 then do
-      let chain ← chainIds p p.rootStart
-      if p.rootLen ≥ chain.length * p.S then do
-        let (p, _) ← extendChain p p.rootStart .zero
-        pure p
-      else pure p
-    else pure p
-  pure { p with rootLen := p.rootLen + MINI }
+def appendMiniSector (p : P) : Outcome P :=
+  match ensureRootRoom p with
+  | .ok p' => .ok { p' with rootLen := p'.rootLen + MINI }
+  | .err k => .err k
+  | .panic s => .panic s
+  | .hang s => .hang s
 
 /-- pop free mini sectors until one is really free -/
 def popFreeMini (p : P) : Nat → Outcome (P × Option Nat)
@@ -274,6 +299,30 @@ def popFreeMini (p : P) : Nat → Outcome (P × Option Nat)
       | none => .panic "minialloc.rs:253 minifat[free_idx]"
       | some cell => if cell = FREE then .ok (p', some idx) else popFreeMini p' fuel
 
+/-- room for one more MiniFAT entry (begin the MiniFAT chain, or extend it when it is full) -/
+def ensureMiniFatRoom (p : P) : Outcome P :=
+  let per := p.S / 4
+  if p.miniFatStart = END then
+    match allocateSector p .fat with
+    | .ok (p', id) => .ok { p' with miniFatStart := id }
+    | .err k => .err k
+    | .panic s => .panic s
+    | .hang s => .hang s
+  else if p.miniFat.size % per = 0 then
+    match chainIds p p.miniFatStart with
+    | .ok chain =>
+      if p.miniFat.size ≥ chain.length * per then
+        match extendChain p p.miniFatStart .fat with
+        | .ok (p', _) => .ok p'
+        | .err k => .err k
+        | .panic s => .panic s
+        | .hang s => .hang s
+      else .ok p
+    | .err k => .err k
+    | .panic s => .panic s
+    | .hang s => .hang s
+  else .ok p
+
 /-- `allocate_mini_sector` -/
 def allocateMiniSector (p : P) (value : Nat) : Outcome (P × Nat) := do
   let (p, reuse) ← popFreeMini p (p.freeMini.length + 1)
@@ -282,17 +331,7 @@ def allocateMiniSector (p : P) (value : Nat) : Outcome (P × Nat) := do
     let p ← setMiniFat p idx value
     pure (p, idx)
   | none => do
-    let per := p.S / 4
-    let p ← if p.miniFatStart = END then do
-        let (p, id) ← allocateSector p .fat
-        pure { p with miniFatStart := id }
-      else if p.miniFat.size % per = 0 then do
-        let chain ← chainIds p p.miniFatStart
-        if p.miniFat.size ≥ chain.length * per then do
-          let (p, _) ← extendChain p p.miniFatStart .fat
-          pure p
-        else pure p
-      else pure p
+    let p ← ensureMiniFatRoom p
     let idx := p.miniFat.size
     let p ← appendMiniSector p        -- the mini stream grows first (a failure must not leave the MiniFAT ahead)
     let p ← setMiniFat p idx value
@@ -370,18 +409,28 @@ def miniWriteAt (p : P) (m off : Nat) (bs : Bytes) : Outcome P := do
   let (sid, base) ← locateMini p m
   writeSector p sid (base + off) bs
 
+/-- one more mini sector at the end of a mini chain given by its list -/
+def growOneMini (p : P) (ids : List Nat) : Outcome (P × List Nat) :=
+  match ids.getLast? with
+  | some last =>
+    match extendMiniChain p last with
+    | .ok (p', id) => .ok (p', ids ++ [id])
+    | .err k => .err k
+    | .panic s => .panic s
+    | .hang s => .hang s
+  | none =>
+    match allocateMiniSector p END with
+    | .ok (p', id) => .ok (p', ids ++ [id])
+    | .err k => .err k
+    | .panic s => .panic s
+    | .hang s => .hang s
+
 /-- `MiniChain::write` under `write_all` -/
 def miniChainWrite : Nat → P → List Nat → Nat → Bytes → Outcome (P × List Nat)
   | 0, _, _, _, _ => .hang "mini chain write"
   | fuel + 1, p, ids, off, bs =>
     if bs.isEmpty then .ok (p, ids) else
-    let grow : Outcome (P × List Nat) :=
-      if off = ids.length * MINI then
-        match ids.getLast? with
-        | some last => (extendMiniChain p last).bind (fun (p', id) => .ok (p', ids ++ [id]))
-        | none => (allocateMiniSector p END).bind (fun (p', id) => .ok (p', ids ++ [id]))
-      else .ok (p, ids)
-    match grow with
+    match (if off = ids.length * MINI then growOneMini p ids else .ok (p, ids)) with
     | .ok (p1, ids1) =>
       match ids1[off / MINI]? with
       | none => .panic "minichain.rs:147 sector_ids[current_sector_index]"
@@ -421,13 +470,10 @@ def miniChainGrow : Nat → P → List Nat → Nat → Outcome (P × List Nat)
   | 0, _, _, _ => .hang "mini chain grow"
   | fuel + 1, p, ids, target =>
     if ids.length ≥ target then .ok (p, ids) else
-    let r := match ids.getLast? with
-      | some last => extendMiniChain p last
-      | none => allocateMiniSector p END
-    match r with
-    | .ok (p', id) =>
-      match miniWriteAt p' id 0 (List.replicate MINI 0) with
-      | .ok p'' => miniChainGrow fuel p'' (ids ++ [id]) target
+    match growOneMini p ids with
+    | .ok (p', ids') =>
+      match miniWriteAt p' (ids'.getLast?.getD 0) 0 (List.replicate MINI 0) with
+      | .ok p'' => miniChainGrow fuel p'' ids' target
       | .err k => .err k
       | .panic s => .panic s
       | .hang s => .hang s
@@ -574,13 +620,13 @@ def freeStream (p : P) (slot len : Nat) : Outcome P := do
 /-- `allocate_dir_entry` as far as sectors are concerned: slot `slot` is about to be used -/
 def ensureDirSlot (p : P) (slot : Nat) : Outcome P :=
   if slot < p.dirLen then .ok p
-  else do
-    let per := p.S / Gen.DIR_ENTRY_LEN
-    let p ← if p.dirLen % per = 0 then do
-        let (p, _) ← extendChain p p.dirStart .dir
-        pure p
-      else pure p
-    pure { p with dirLen := p.dirLen + 1 }
+  else if p.dirLen % (p.S / Gen.DIR_ENTRY_LEN) = 0 then
+    match extendChain p p.dirStart .dir with
+    | .ok (p', _) => .ok { p' with dirLen := p'.dirLen + 1 }
+    | .err k => .err k
+    | .panic s => .panic s
+    | .hang s => .hang s
+  else .ok { p with dirLen := p.dirLen + 1 }
 
 /-! ## a fresh file, and what `open` re-derives -/
 
